@@ -334,3 +334,32 @@ func VerifC14XMLEncodeTree() {
 	verifAssert(verifEqStr(c14XDump(got), c14XDump(want)), "C14/xml-output-reads-back-as-another-tree")
 	verifCover("C14/xmlenc/end")
 }
+
+// VerifC19XMLTruncated: XML input that ends inside an element (a token stream whose start tags outnumber the end tags
+// when the input is over) is reported as an error — it is not decoded to the part that happened to be complete.
+func VerifC19XMLTruncated() {
+	n := verifChoice("len", verifParam("maxlen", 4)) + 1
+	verifXMLTokens = nil
+	depth, minDepth := 0, 0
+	for i := 0; i < n; i++ {
+		k := verifChoice("k"+verifItoa(int64(i)), 4) // start-a, start-b-attr, end, chardata
+		verifXMLTokens = append(verifXMLTokens, c11XMLToken(k))
+		if k == 0 || k == 1 {
+			depth++
+		}
+		if k == 2 {
+			depth--
+			if depth < minDepth {
+				minDepth = depth
+			}
+		}
+	}
+	dec := NewXMLDecoder(ConfiguredXMLPreferences)
+	_ = dec.Init(nil)
+	_, err := dec.Decode()
+	if depth > 0 && minDepth >= 0 {
+		verifCover("C19/xml-truncated/open-at-end")
+		verifAssert(err != nil, "C19/truncated-xml-input-decoded-without-error")
+	}
+	verifCover("C19/xml-truncated/end")
+}
